@@ -561,6 +561,19 @@ class C01(World):
                 raise
             except BaseException:
                 pass
+        if name == "integral_mean_curvature" and np.ndim(got) == 0 and np.ndim(want) == 0:
+            # half the sum of (dihedral angle x edge length) over all adjacent pairs, with signs: the value may cancel to ~0 while
+            # each angle carries the 1e-6 of ANGLE_OBS - the error is bounded by the total edge length, not by the value
+            try:
+                E = np.asarray(fresh.face_adjacency_edges)
+                Vf = np.asarray(fresh.vertices, dtype=float)
+                total = float(np.linalg.norm(Vf[E[:, 0]] - Vf[E[:, 1]], axis=1).sum()) if len(E) else 0.0
+            except (KeyboardInterrupt, SystemExit, MemoryError):
+                raise
+            except BaseException:
+                total = 0.0
+            if abs(float(got) - float(want)) <= 1e-6 * (1.0 + 0.5 * total + abs(float(want))):
+                got = want
         bad = same(got, want, tol, name)
         if bad:
             ctx.fail(oracle, name, f"after {st['last_mut']} ({memo} before it): {bad}")
